@@ -20,7 +20,7 @@ use tokio_util::codec::{Decoder as _, Encoder as _};
 use tracing::{error, trace};
 
 use super::{
-    codec::Codec,
+    codec::{Codec, RequestContext},
     decoder::MAX_BUFFER_SIZE,
     payload::{Payload, PayloadSender, PayloadStatus},
     timer::TimerState,
@@ -186,8 +186,9 @@ pin_project! {
 }
 
 enum DispatcherMessage {
-    Item(Request),
-    Upgrade(Request),
+    /// a queued request and the context `Codec::decode` stored for the response to it
+    Item(Request, RequestContext),
+    Upgrade(Request, RequestContext),
     Error(Response<()>),
 }
 
@@ -585,8 +586,7 @@ where
                 // no future is in InnerDispatcher state; pop next message
                 StateProj::None => match this.messages.pop_front() {
                     // handle request message
-                    Some(DispatcherMessage::Item(req)) => {
-                        let ctx = this.codec.request_context(req.head());
+                    Some(DispatcherMessage::Item(req, ctx)) => {
                         this.codec.set_request_context(ctx);
 
                         // Handle `EXPECT: 100-Continue` header
@@ -610,7 +610,12 @@ where
                     }
 
                     // return with upgrade request and poll it exclusively
-                    Some(DispatcherMessage::Upgrade(req)) => return Ok(PollResponse::Upgrade(req)),
+                    Some(DispatcherMessage::Upgrade(req, ctx)) => {
+                        // the codec is handed to the upgrade service with the context of the
+                        // upgrade request
+                        this.codec.set_request_context(ctx);
+                        return Ok(PollResponse::Upgrade(req));
+                    }
 
                     // all messages are dealt with
                     None => {
@@ -915,6 +920,9 @@ where
 
                             req.conn_data.clone_from(this.conn_data);
 
+                            // context of the response to this request, as stored by `decode`
+                            let ctx = this.codec.current_context();
+
                             match this.codec.message_type() {
                                 // request has no payload
                                 MessageType::None => *this.payload_drainable = false,
@@ -924,7 +932,13 @@ where
                                 // upgraded Request.
                                 MessageType::Stream if this.flow.upgrade.is_some() => {
                                     *this.payload_drainable = false;
-                                    this.messages.push_back(DispatcherMessage::Upgrade(req));
+                                    // the upgrade request is only queued: a response in flight
+                                    // keeps the context of its own request
+                                    if !this.state.is_none() {
+                                        this.codec.set_request_context(ctx_in_flight);
+                                    }
+                                    this.messages
+                                        .push_back(DispatcherMessage::Upgrade(req, ctx));
                                     break;
                                 }
 
@@ -948,7 +962,7 @@ where
                                 this = self.as_mut().project();
                             } else {
                                 this.codec.set_request_context(ctx_in_flight);
-                                this.messages.push_back(DispatcherMessage::Item(req));
+                                this.messages.push_back(DispatcherMessage::Item(req, ctx));
                             }
                         }
 
